@@ -1,16 +1,28 @@
 import Pathrs.Proofs.SafeRoot
+import Pathrs.Proofs.LedgerProofs
 
 /-!
 # C11 — calls leave the descriptor table unchanged except for the returned fd
 
-What is proved here (for every environment): every call by which any operation can
-obtain a descriptor asks the kernel for close-on-exec — so in particular the one
-descriptor that is returned is close-on-exec.  The bookkeeping half ("opened minus
-closed = the returned descriptor") is carried by the explicit `close` calls of the
-model, which mirror Rust's drops by hand; the tie checks on every replayed case that
-the multiset of descriptors the model closes equals the multiset the implementation
-closed, and the harness compares the process's descriptor table before and after
-every call (`C11_no_leak` is therefore named `_partial` in DESIGN.md).
+What is proved here, for every environment (every sequence of kernel answers, hence every placement of failing
+calls, every attacker schedule, every racing caller):
+
+* every call by which any operation can obtain a descriptor asks the kernel for close-on-exec — so in particular
+  the one descriptor that is returned is close-on-exec (`C11_*_cloexec`);
+* **descriptor balance** (`C11_balance_*`, from `Proofs/Ledger*.lean`, 2 500 lines): walk through the calls of a run
+  with a ledger (`Pathrs/Ledger.lean`: a call whose answer hands out a descriptor adds it, a `close` removes it, and
+  the ledger is undefined if the program closes a number it was not handed in that run — in particular one of the
+  caller's).  If the kernel hands out only numbers that are not open (`Fresh`), then for `resolve`/`resolve_nofollow`,
+  `open_subpath`, `reopen`, `readlink`, `create`, `create_file`, `remove_file`/`remove_dir`, `rename`, `mkdir_all`,
+  `remove_all`, the partial lookup and the unmasked-handle constructor the ledger is defined and what is left open at
+  the end is exactly the descriptor being returned — nothing on an error — unless the run ended in a fatal model
+  error (an answer of an impossible shape, exhausted model fuel).  Shared ownership (`Rc<OwnedFd>`) is modelled by
+  descriptor numbers; freshness is what makes number identity ownership identity.
+
+The model's explicit `close` calls mirror Rust's drops by hand; the tie checks on every replayed case that the
+multiset of descriptors the model closes equals the multiset the implementation closed, the model driver evaluates
+the same ledger on the recorded calls of the implementation, and the harness compares the process's descriptor
+table before and after every call.
 -/
 
 open K
@@ -106,3 +118,66 @@ theorem C11_rename_cloexec (src dst : Bytes) (fl : Nat) (hr : 0 ≤ root.fd) (hp
 example : ¬ Cloexec (.openat 3 b!"a" O_PATH 0) := by decide
 example : ¬ Cloexec (.openTree AT_FDCWD b!"/proc" OPEN_TREE_CLONE) := by decide
 example : Cloexec (.openTree AT_FDCWD b!"/proc" (OPEN_TREE_CLONE ||| OPEN_TREE_CLOEXEC)) := by decide
+
+/-! ### descriptor balance -/
+
+open LedgerProofs in
+theorem C11_balance_resolve (env : Env) (r : Resolver) (root : Fd) (path : Bytes) (nofollow : Bool) (ext : List Fd)
+    (hroot : root ∈ ext) (hproc : env.proc.fd ∈ ext) (hr0 : 0 ≤ root) (hp0 : 0 ≤ env.proc.fd) :
+    BalancedFd ext (Resolver.resolve env r root path nofollow) :=
+  resolve_balanced env r root path nofollow ext hroot hproc hr0 hp0
+
+open LedgerProofs in
+theorem C11_balance_open_subpath (env : Env) (r : Resolver) (root : Fd) (path : Bytes) (flags : Nat) (ext : List Fd)
+    (hroot : root ∈ ext) (hproc : env.proc.fd ∈ ext) (hr0 : 0 ≤ root) (hp0 : 0 ≤ env.proc.fd) :
+    BalancedFd ext (Resolver.openOnce env r root path flags) :=
+  openOnce_balanced env r root path flags ext hroot hproc hr0 hp0
+
+open LedgerProofs in
+theorem C11_balance_reopen (env : Env) (fd : Fd) (flags : Nat) (ext : List Fd)
+    (hfd : fd ∈ ext) (hproc : env.proc.fd ∈ ext) (hf0 : 0 ≤ fd) (hp0 : 0 ≤ env.proc.fd) :
+    BalancedFd ext (Procfs.reopen env fd flags) :=
+  reopen_balanced env fd flags ext hfd hproc hf0 hp0
+
+open LedgerProofs in
+theorem C11_balance_remove (env : Env) (root : Root) (path : Bytes) (isDir : Bool) (ext : List Fd)
+    (hroot : root.fd ∈ ext) (hproc : env.proc.fd ∈ ext) (hr0 : 0 ≤ root.fd) (hp0 : 0 ≤ env.proc.fd) :
+    BalancedNone ext (Root.removeInode env root path isDir) :=
+  removeInode_balanced env root path isDir ext hroot hproc hr0 hp0
+
+open LedgerProofs in
+theorem C11_balance_create (env : Env) (root : Root) (path : Bytes) (ty : InodeType) (ext : List Fd)
+    (hroot : root.fd ∈ ext) (hproc : env.proc.fd ∈ ext) (hr0 : 0 ≤ root.fd) (hp0 : 0 ≤ env.proc.fd) :
+    BalancedNone ext (Root.create env root path ty) :=
+  create_balanced env root path ty ext hroot hproc hr0 hp0
+
+open LedgerProofs in
+theorem C11_balance_create_file (env : Env) (root : Root) (path : Bytes) (flags perm : Nat) (ext : List Fd)
+    (hroot : root.fd ∈ ext) (hproc : env.proc.fd ∈ ext) (hr0 : 0 ≤ root.fd) (hp0 : 0 ≤ env.proc.fd) :
+    BalancedFd ext (Root.createFile env root path flags perm) :=
+  createFile_balanced env root path flags perm ext hroot hproc hr0 hp0
+
+open LedgerProofs in
+theorem C11_balance_rename (env : Env) (root : Root) (src dst : Bytes) (rflags : Nat) (ext : List Fd)
+    (hroot : root.fd ∈ ext) (hproc : env.proc.fd ∈ ext) (hr0 : 0 ≤ root.fd) (hp0 : 0 ≤ env.proc.fd) :
+    BalancedNone ext (Root.rename env root src dst rflags) :=
+  rename_balanced env root src dst rflags ext hroot hproc hr0 hp0
+
+open LedgerProofs in
+theorem C11_balance_readlink (env : Env) (root : Root) (path : Bytes) (ext : List Fd)
+    (hroot : root.fd ∈ ext) (hproc : env.proc.fd ∈ ext) (hr0 : 0 ≤ root.fd) (hp0 : 0 ≤ env.proc.fd) :
+    BalancedNone ext (Root.readlink env root path) :=
+  readlink_balanced env root path ext hroot hproc hr0 hp0
+
+open LedgerProofs in
+theorem C11_balance_mkdir_all (env : Env) (root : Root) (path : Bytes) (perm : Nat) (ext : List Fd)
+    (hroot : root.fd ∈ ext) (hproc : env.proc.fd ∈ ext) (hr0 : 0 ≤ root.fd) (hp0 : 0 ≤ env.proc.fd) :
+    BalancedFd ext (Root.mkdirAll env root path perm) :=
+  mkdirAll_balanced env root path perm ext hroot hproc hr0 hp0
+
+open LedgerProofs in
+theorem C11_balance_remove_all (env : Env) (root : Root) (path : Bytes) (ext : List Fd)
+    (hroot : root.fd ∈ ext) (hproc : env.proc.fd ∈ ext) (hr0 : 0 ≤ root.fd) (hp0 : 0 ≤ env.proc.fd) :
+    BalancedNone ext (Root.removeAll env root path) :=
+  removeAll_balanced env root path ext hroot hproc hr0 hp0
+
